@@ -304,8 +304,18 @@ class World:
         budget = self.step_budget
         if budget:
             from . import stepbudget
-            with stepbudget.limit(budget):
-                app_iter, status, headers = run_wsgi_app(self.app.wsgi_app, environ, buffered=True)
+            try:
+                with stepbudget.limit(budget):
+                    app_iter, status, headers = run_wsgi_app(self.app.wsgi_app, environ, buffered=True)
+            except SimHang as hang:
+                # the request was aborted by the deterministic step budget; discard its DB session
+                try:
+                    from dashlive.server.models.db import db
+                    with self.app.app_context():
+                        db.session.remove()
+                except Exception:  # noqa: BLE001
+                    pass
+                return 599, [], b"", hang
         else:
             app_iter, status, headers = run_wsgi_app(self.app.wsgi_app, environ, buffered=True)
         try:
